@@ -73,7 +73,12 @@ def objPairs (j : Json) : List (String × Json) :=
 def parseInst (j : Json) : Except String InstDef := do
   let pre ← ((jArrField? j "pre").getD []).mapM parsePre
   let sui ← ((jArrField? j "sui").getD []).mapM parsePre
-  let chJ := (jField? j "children").getD Json.null
+  -- `children_ord`: the graph children in the iteration order of the real lists (the order in which
+  -- `spawn_on_output` visits them: it matters when a child spawned on the way - e.g. by a flow-wait
+  -- task that catches up - is itself a later child); `children` (sorted) otherwise
+  let chJ := match jField? j "children_ord" with
+    | some c => c
+    | none => (jField? j "children").getD Json.null
   let children ← (objPairs chJ).mapM fun (k, v) => do
     let cs ← ((jArr? v).getD []).mapM fun c => do
       match jArr? c with
